@@ -246,6 +246,12 @@ func DecShareBatch(
 // VerifyDecShare checks that the decrypted share sG satisfies
 // log_{G}(X) == log_{sG}(sX). Note that X = xG and sX = s(xG) = x(sG).
 func VerifyDecShare(suite Suite, G, X kyber.Point, encShare *PubVerShare, decShare *PubVerShare) error {
+	// The index is covered by neither the challenge nor the proof: bind it to
+	// the index of the encrypted share this is claimed to be the decryption of.
+	if decShare.S.I != encShare.S.I {
+		return fmt.Errorf("didn't verify: %w", ErrDecVerification)
+	}
+
 	// Compute challenge for the decShare
 	h := suite.Hash()
 	var err error
